@@ -286,6 +286,11 @@ func runC11(r *ev.Run) {
 			return
 		}
 		defer sut.close()
+		if kind == "store" {
+			// widen the windows between the store's critical sections with PRNG yields/sleeps at the hook points
+			un, hits := installPerturbation(uint64(ci)*7919 + uint64(r.Seed))
+			defer func() { un(); r.Count("perturbation-yields-at-hook-points", hits.Load()) }()
+		}
 		G := 2 + rng.IntN(15)
 		opsPer := 400 / G
 		if opsPer > 60 {
@@ -577,6 +582,8 @@ func c11StoreRaceOnly(r *ev.Run) {
 			r.ViolationAt("store-race", ci, "conc.store.open-error", err.Error(), nil)
 			return
 		}
+		un, hits := installPerturbation(uint64(ci)*104729 + uint64(r.Seed))
+		defer func() { un(); r.Count("perturbation-yields-at-hook-points", hits.Load()) }()
 		G := 3 + rng.IntN(10)
 		var closed atomic.Bool
 		var wg sync.WaitGroup
